@@ -266,8 +266,8 @@ def main():
     try:
         if args.replay:
             with Lock():
-                write_coqproject()
                 run_generators(getattr(mod, 'GENERATORS', []))
+                write_coqproject()
                 build_driver(prop)
             R.model_available = os.path.exists(R.driver)
             rep = json.load(open(args.replay))
@@ -279,8 +279,8 @@ def main():
 
         # ---- steps 1-3 under the build lock
         with Lock():
-            write_coqproject()
             gen_res = run_generators(getattr(mod, 'GENERATORS', []))
+            write_coqproject()   # after the generators: a freshly generated file has to be listed
             status['translation'] = [{'generator': n, 'ok': ok, 'message': msg[-500:]} for n, ok, msg in gen_res]
             if args.no_proofs:
                 proof = {'obligations': 0, 'discharged': 0, 'theorems': [], 'broken': [], 'assumptions': {}, 'checker_cmd': 'skipped'}
